@@ -18,13 +18,16 @@ import (
 // are batched (lock-step .. fully pipelined), how the byte stream is chunked,
 // how the clock advances and how/where the stream ends.
 type connRun struct {
-	stalled bool // the client has stopped reading
-	S       *sim.Sim
-	N       *sim.Net
-	P       *sim.Pipe
-	Srv     *redis.Server
-	D       *wl.Double
-	O       *Outcome
+	// methodOnly: the request stream was corrupted on purpose, so calls cannot be attributed to requests by
+	// counting replies: the log keeps only the method of every call (a map-iterating command may be anywhere)
+	methodOnly bool
+	stalled    bool // the client has stopped reading
+	S          *sim.Sim
+	N          *sim.Net
+	P          *sim.Pipe
+	Srv        *redis.Server
+	D          *wl.Double
+	O          *Outcome
 
 	Reqs   []*wl.Req
 	ends   []int // cumulative end offset of request i in the client stream
@@ -105,7 +108,7 @@ func (c *connRun) onCall(call *wl.Call) {
 	// which request is being served: the number of complete replies written so far
 	ri := c.serving()
 	c.reqOfCall = append(c.reqOfCall, ri)
-	if ri < len(c.Reqs) && mapIterating[c.Reqs[ri].Name] {
+	if c.methodOnly || ri >= len(c.Reqs) || mapIterating[c.Reqs[ri].Name] {
 		// Go map iteration order cannot be seeded: the canonical log keeps only the method
 		c.S.Logf(c.key(), "call r%d %s <map-ordered>", ri, call.Method)
 	} else {
